@@ -213,6 +213,10 @@ func (p *File) newImport(name, pkgPath string) *ast.Ident {
 		id = &ast.Ident{Name: name, Obj: &ast.Object{Data: importUsed(false)}}
 		p.imps[pkgPath] = id
 		p.dirty = true
+	} else if !bool(id.Obj.Data.(importUsed)) {
+		// a reference built earlier may have been discarded after the last scan:
+		// this new reference must be seen by the next markUsed
+		p.dirty = true
 	}
 	return id
 }
